@@ -6,9 +6,9 @@
 # Writes a summary to stdout (JSON on the last line).
 set -u
 NAME=$1; PATCH=$(readlink -f "$2"); DEMO=$(readlink -f "$3"); DST=$4; DEMOARGS=$5; CRATES=$6
-WT=/tmp/wt/confirm
+WT=${CONFIRM_WT:-/tmp/wt/confirm}
 export CARGO_NET_OFFLINE=true
-export CARGO_TARGET_DIR=/tmp/wt/confirm-target
+export CARGO_TARGET_DIR=${CONFIRM_WT:-/tmp/wt/confirm}-target
 git -C /repo worktree remove --force $WT >/dev/null 2>&1
 git -C /repo worktree add -q --detach $WT HEAD || exit 3
 cp /repo/Cargo.lock $WT/
